@@ -507,8 +507,15 @@ void ext_teardown(struct rthr *th) { ext2_teardown(th); }
 void ext_post_main(struct rthr *th) { ext2_post_main(th); }
 void ext_after_first_init(void) { }
 
+static void obs_would_block(int tid, int fd)
+{
+	viol("C09.blocked", "a library write on its own descriptor %d (blocking mode, no room left) would have blocked thread sim %d: posting must never block the poster", fd, tid);
+	finish(1);
+}
+
 void ext_install_obs(void)
 {
+	simk_obs.would_block = obs_would_block;
 	simk_obs.sig_deliver = obs_sig_deliver;
 	simk_obs.lock_event = obs_lock_event;
 	ext2_install_obs();
